@@ -475,8 +475,11 @@ func (a *oauth2IntrospectionAuthenticator) getCacheTTL(introspectResp *oauth2.In
 
 func (a *oauth2IntrospectionAuthenticator) calculateCacheKey(ep *endpoint.Endpoint, templatedURL, token string) string {
 	digest := sha256.New()
+	// the separator ensures, that the end of the url cannot be confused with the beginning of the
+	// value following it (both depend on the data from the token)
 	digest.Write(ep.Hash())
 	digest.Write(stringx.ToBytes(templatedURL))
+	digest.Write([]byte{0})
 	digest.Write(stringx.ToBytes(token))
 
 	return hex.EncodeToString(digest.Sum(nil))
